@@ -7,17 +7,20 @@
 (*   perr, prefix]                                                               *)
 (* pushes / perr / class are environment facts (bchd txscript.PushedData and      *)
 (* GetScriptClass); prefix = the pushes before the parse error of an unparsable   *)
-(* script.  Named deviations (the property is silent):                           *)
+(* script.  Named deviation (the property is silent):                            *)
 (*   PartialPushes  an unparsable script contributes nothing ("none") or the      *)
-(*                  pushes before the error ("prefix");                          *)
-(*   EmptyPushes    an empty push is tested ("test") or skipped ("skip").        *)
+(*                  pushes before the error ("prefix").                          *)
+(* An EMPTY push is a data push like any other (the property quantifies over      *)
+(* empty pushes and says "exactly when the filter contains ... a data push"):      *)
+(* it is tested.  (Until round 6 skipping it, as Bitcoin Core does, was accepted   *)
+(* as a second deviation; seeded change C10-N showed that this hid a real miss.)   *)
 EXTENDS Bloom
 
 UpdateNone == 0
 UpdateAll == 1
 UpdateP2PubkeyOnly == 2
 
-Variants == {<<pm, em>> : pm \in {"none", "prefix"}, em \in {"test", "skip"}}
+Variants == {<<pm, "test">> : pm \in {"none", "prefix"}}
 PushesOf(sc, var) ==
   LET base == IF sc.perr THEN (IF var[1] = "prefix" THEN sc.prefix ELSE <<>>) ELSE sc.pushes
   IN IF var[2] = "skip" THEN SelectSeq(base, LAMBDA d : Len(d) > 0) ELSE base
@@ -64,8 +67,8 @@ LfpX(txs, I0, flags, var) ==
   FoldLeft(LAMBDA I, r : GrowX(txs, I, flags, var), I0, [r \in 1..(Len(txs) + 1) |-> r])
 \* must-report set: minimal reading of the deviations
 LowerSet(txs, items, flags) ==
-  LET I == LfpX(txs, items, flags, <<"none", "skip">>)
-  IN {t \in 1..Len(txs) : RelevantX(txs[t], I, <<"none", "skip">>)}
+  LET I == LfpX(txs, items, flags, <<"none", "test">>)
+  IN {t \in 1..Len(txs) : RelevantX(txs[t], I, <<"none", "test">>)}
 \* may-report set: what the FINAL filter bits match (maximal reading of the deviations)
 MatchesFinal(f, tx) ==
   \/ MatchesB(f, tx.txid)
